@@ -36,6 +36,9 @@ var Placements = []Placement{
 	{Out: "./mock_gen.go", Loaded: true, Writable: true},
 	{Out: "../src/mock_gen.go", Loaded: true, Writable: true},
 	{Out: "mock_gen.go", Loaded: true, Writable: true, Abs: true},
+	// the destination package named explicitly: the source package itself and its external test package
+	{Out: "mock_gen.go", Pkg: "src", Loaded: true, Writable: true},
+	{Out: "mock_ext_test.go", Pkg: "src_test", Writable: true},
 	// -out is a symbolic link to an existing file elsewhere
 	{Out: "../mocks/link_gen.go", Pkg: "mocks", Writable: true, Symlink: "../linktarget/real_gen.go"},
 }
@@ -72,6 +75,7 @@ type Scenario struct {
 	// IncompleteMod: the scratch module's go.mod lacks a requirement the go
 	// command could add by itself (every run must fail and touch nothing)
 	IncompleteMod bool   `json:"incomplete_mod,omitempty"`
+	StartAliased  bool   `json:"start_aliased,omitempty"` // the source imports scn/dep under an alias at first
 	Steps         []Step `json:"steps"`
 }
 
@@ -117,15 +121,15 @@ var damages = []string{"truncate", "garbage", "empty", "otherpkg", "selfdecl", "
 
 // Profile tunes scenario generation per property.
 type Profile struct {
-	FaultPM, BadPM, RmPM, DamagePM, RepeatPM, StdoutPM int
-	Crash                                              bool
+	FaultPM, BadPM, RmPM, DamagePM, RepeatPM, StdoutPM, InterjectPM int
+	Crash                                                           bool
 }
 
 // Profiles by property.
 var Profiles = map[string]Profile{
-	"C15": {FaultPM: 60, BadPM: 40, RmPM: 500, DamagePM: 300, RepeatPM: 300, StdoutPM: 30, Crash: true},
-	"C17": {FaultPM: 450, BadPM: 250, RmPM: 250, DamagePM: 120, RepeatPM: 80, StdoutPM: 120, Crash: false},
-	"C18": {FaultPM: 300, BadPM: 200, RmPM: 300, DamagePM: 150, RepeatPM: 100, StdoutPM: 150, Crash: false},
+	"C15": {FaultPM: 80, BadPM: 40, RmPM: 500, DamagePM: 300, RepeatPM: 300, StdoutPM: 30, Crash: true},
+	"C17": {FaultPM: 450, BadPM: 250, RmPM: 250, DamagePM: 120, RepeatPM: 120, StdoutPM: 120, InterjectPM: 30, Crash: true},
+	"C18": {FaultPM: 300, BadPM: 250, RmPM: 300, DamagePM: 150, RepeatPM: 100, StdoutPM: 150, InterjectPM: 150, Crash: false},
 }
 
 var errnosFor = map[string][]string{
@@ -146,10 +150,11 @@ func GenScenario(tp *tape.Tape, seed uint64, pf Profile) *Scenario {
 	if tp.Chance(150, 1000) {
 		sc.Place = Placements[4+tp.Int(2)]
 	} else {
-		w := []int{0, 0, 0, 1, 2, 3, 6, 7, 8, 9, 10, 10}
+		w := []int{0, 0, 0, 1, 2, 3, 6, 7, 8, 9, 10, 11, 12, 12}
 		sc.Place = Placements[w[tp.Int(len(w))]]
 	}
 	sc.IncompleteMod = tp.Chance(70, 1000)
+	sc.StartAliased = tp.Bool()
 	n := 1 + tp.Int(5)
 	hadRun := false
 	broken := false
@@ -161,7 +166,7 @@ func GenScenario(tp *tape.Tape, seed uint64, pf Profile) *Scenario {
 		case hadRun && r >= 1000-pf.RepeatPM-pf.DamagePM:
 			sc.Steps = append(sc.Steps, Step{Kind: StepDamage, Damage: damages[tp.Int(len(damages))]})
 		case hadRun && r >= 1000-pf.RepeatPM-pf.DamagePM-80:
-			sc.Steps = append(sc.Steps, Step{Kind: StepEvolve})
+			sc.Steps = append(sc.Steps, Step{Kind: StepEvolve, Damage: []string{"shape", "alias"}[tp.Int(2)]})
 		case hadRun && r >= 1000-pf.RepeatPM-pf.DamagePM-110:
 			sc.Steps = append(sc.Steps, Step{Kind: StepDelete})
 		case r >= 1000-pf.RepeatPM-pf.DamagePM-140 && r < 1000-pf.RepeatPM-pf.DamagePM-110:
@@ -219,12 +224,20 @@ func genRun(tp *tape.Tape, pf Profile, pl Placement) Step {
 			st.Names = append(ns, st.Names[st.BadIdx:]...)
 		}
 	}
+	if tp.Chance(pf.InterjectPM, 1000) && !st.Stdout {
+		// another actor drops a file next to what moq just touched
+		st.Fault = &simos.Rule{Prim: []string{"mkdir", "mkdir", "open", "remove"}[tp.Int(4)], Nth: tp.Int(2), Action: "interject"}
+		return st
+	}
 	if tp.Chance(pf.FaultPM, 1000) {
-		prims := []string{"write", "write", "write", "open", "close", "mkdir", "remove"}
+		prims := []string{"write", "write", "write", "open", "close", "mkdir", "remove", "rename", "rename", "sync", "chmod"}
 		if st.Stdout {
 			prims = []string{"write"}
 		}
 		f := &simos.Rule{Prim: prims[tp.Int(len(prims))]}
+		if f.Prim != "write" && tp.Int(3) == 0 {
+			f.Nth = 1 + tp.Int(2) // not the first such call but a later one
+		}
 		es := errnosFor[f.Prim]
 		f.Errno = es[tp.Int(len(es))]
 		f.Action = "error"
@@ -240,6 +253,9 @@ func genRun(tp *tape.Tape, pf Profile, pl Placement) Step {
 				f.Action = "crash"
 				f.Frac = []int{0, 1, 500, 999}[tp.Int(4)]
 			}
+			if pf.Crash && f.Action != "crash" && tp.Int(6) == 0 {
+				f.Action = "crash"
+			}
 			if st.Stdout {
 				f.Path = "<stdout>"
 				if tp.Int(3) == 0 {
@@ -248,6 +264,9 @@ func genRun(tp *tape.Tape, pf Profile, pl Placement) Step {
 					f.Action, f.Errno = "devfull", "ENOSPC"
 				}
 			}
+		}
+		if pf.Crash && f.Prim != "write" && tp.Int(4) == 0 {
+			f.Action = "crash" // the process dies right before this primitive
 		}
 		st.Fault = f
 	}
